@@ -17,7 +17,7 @@ PROOF_FILES = ["Proofs/C01Proof.v", "Properties/C01.v"]
 RULE = ("every accepted module is compiled for real: `cargo check` of a scratch crate holding all generated modules "
         "against wgpu 24.0.5 + bytemuck + encase + glam + serde (+ a local nalgebra stub); families: kitchen-sink "
         "(constants, overrides, entry points of all stages, vertex inputs, fragment outputs), struct programs x derive "
-        "switches x representations, call-graph programs with every resource kind, sparse bind groups, the repository's "
+        "switches x representations (incl. a family biased towards structs that play several roles at once), call-graph programs with every resource kind, sparse bind groups, the repository's "
         "own fixture shaders, identifier stress (non-ASCII, case variants, names of template items); every fourth case "
         "with rustfmt and with validation; non-trivial = module compiled (generator returned Ok); distinct = distinct "
         "(IR, options)")
@@ -55,6 +55,15 @@ def cases(rng, tier):
         out.append({"wgsl": s["wgsl"], "family": "sink", "opts": dict(o)})
     for c in structcases.cases(rng, "quick", nbase=14 * scale, square_mats_only=False):
         out.append({"wgsl": c["wgsl"], "family": "structs", "opts": c["opts"]})
+    # structs playing several roles at once (entry result + member of a host struct, vertex input + storage element ...)
+    roles, nested_result = [], 0
+    for _ in range(20):
+        roles = structcases.cases(rng, "quick", nbase=8 * scale, square_mats_only=False, roles_bias=True)
+        nested_result = sum(1 for c in roles if "WrapsOut" in c["wgsl"] and "-> FOut" in c["wgsl"])
+        if nested_result >= 6:       # >= 2 programs (x 3 option sets) where an entry result is nested in a host struct
+            break
+    for c in roles:
+        out.append({"wgsl": c["wgsl"], "family": "struct_roles", "opts": c["opts"]})
     for i in range(25 * scale):
         p = W.random_program(rng, pc=(i % 3 == 0))
         out.append({"wgsl": p.render(), "family": "call_graph", "opts": dict(rng.choice(structcases.ALL_OPTS))})
